@@ -9,9 +9,10 @@
 
    DECISIONS (the same as harness/src/mirsem.rs unless said otherwise)
    * arithmetic: Common/Int32.rt_binop = the WebAssembly instruction selected for the operator; division
-     by zero and MIN / -1 trap.  `strict = true` additionally stops the run at the first + - * whose exact
+     by zero and MIN / -1 trap.  Mode `All` additionally stops the run at the first + - * whose exact
      result leaves the 32-bit range (outcome Overflow): the property excludes such runs, and a run that is
-     `Done` in strict mode is a run without overflow.  `strict = false` wraps (what the target does).
+     `Done` in mode All is a run without overflow.  Mode `Wrap` wraps (what the target does); mode `Add`
+     checks + and - only (see `mode` below).
    * conditions of IfElse / SingleIf must be 0 or 1, anything else is Stuck (ill-typed MIR); Not is `xor 1`.
    * a variable that was never assigned reads 0 (WebAssembly locals are zero-initialised; mirsem faults);
      the environment is flat (function-level locals, as in the WebAssembly lowering): names assigned in a
@@ -59,6 +60,17 @@ Definition ovf (op : binop) (a b : Z) : bool :=
   | _ => false
   end.
 
+(* which operations stop the run when their exact result leaves the 32-bit range:
+   Wrap: none (the target);  All: + - * (the runs the property speaks about);
+   Add: + - only (what the optimizer itself relies on between its rounds, see Props.v) *)
+Inductive mode := Wrap | Add | All.
+Definition chk (m : mode) (op : binop) : bool :=
+  match m with
+  | Wrap => false
+  | Add => match op with PLUS | MINUS => true | _ => false end
+  | All => true
+  end.
+
 Definition cond (v : Z) : option bool :=
   if v =? 0 then Some false else if v =? 1 then Some true else None.
 
@@ -88,7 +100,7 @@ Fixpoint loop (body : env -> trace -> res) (next : env -> env) (n : nat) (en : e
   end.
 
 Section Exec.
-  Variable strict : bool.
+  Variable strict : mode.
   Variable w : world.
   Variable fuel : nat.
 
@@ -96,7 +108,7 @@ Section Exec.
     match s with
     | SBin x op e1 e2 =>
         let a := eval w en e1 in let b := eval w en e2 in
-        if strict && ovf op a b then ROvf else
+        if chk strict op && ovf op a b then ROvf else
         match rt_binop op a b with Val v => RNext ((x, v) :: en) tr | TrapArith => RTrap tr end
     | SNot x e => RNext ((x, Z.lxor (eval w en e) 1) :: en) tr
     | SPrim x p e => RNext ((x, w_prim w p (eval w en e)) :: en) tr
@@ -145,7 +157,7 @@ Inductive outcome :=
 
 Definition init_env (f : func) (args : list Z) : env := combine (f_params f) args.
 
-Definition sem (strict : bool) (w : world) (f : func) (args : list Z) (fuel : nat) : outcome :=
+Definition sem (strict : mode) (w : world) (f : func) (args : list Z) (fuel : nat) : outcome :=
   match exec_block strict w fuel (f_body f) (init_env f args) [] with
   | RNext en tr => Done (eval w en (f_ret f)) tr
   | RBreak _ _ _ => Stuck
@@ -160,7 +172,7 @@ Definition sem (strict : bool) (w : world) (f : func) (args : list Z) (fuel : na
    no division trap, well-typed, terminates within the fuel) is reproduced exactly by f' on the target
    (wrapping) semantics: same return value, same calls with the same arguments in the same order. *)
 Definition refines (w : world) (f' f : func) : Prop :=
-  forall args fuel v tr, sem true w f args fuel = Done v tr -> sem false w f' args fuel = Done v tr.
+  forall args fuel v tr, sem All w f args fuel = Done v tr -> sem Wrap w f' args fuel = Done v tr.
 
 (* renaming of variables (used by the alpha-invariance theorem) *)
 Definition ren_expr (r : name -> name) (e : expr) : expr :=
